@@ -1,6 +1,6 @@
 """C17 - see DESIGN.md 5/C17 (Lifecycle.tla)."""
 from harness import core
-from checks import suite_lifecycle, suite_drolifecycle, suite_misuse
+from checks import suite_lifecycle, suite_drolifecycle, suite_misuse, suite_interleave
 
 
 def main(tier):
@@ -16,6 +16,8 @@ def main(tier):
     suite_drolifecycle.run(rep, tier, props=('C17',))
     # the misuse table over every pair of model classes (lp, socp, gcp, ro, dro), before and after a first solve
     suite_misuse.run(rep, tier, props=('C17',))
+    # every pair of model classes, every interleaving of their build / solve / extend / dualise / re-solve scripts (Interleave.tla)
+    suite_interleave.run(rep, tier, props=('C17',))
     return rep.finish()
 
 
